@@ -3,7 +3,8 @@ import GlueVerif.Model.C13Undo
 # C13 — helper lemmas, part 1: the commands
 
 Core Lean only.  (1) list / table facts, (2) `WF` is preserved by everything a command or the set-up
-does, (3) **every clean command is undone exactly**: `cmdUndo true ⟨sp, saved⟩ (do sp b) = b`.
+does, (3) the building blocks of exact undo, (4) **every command is undone exactly**:
+`cmdUndo true ⟨sp, saved⟩ (do sp b) = b`, (5) the code before `fix: F4b` did so for clean commands.
 -/
 namespace GlueVerif.Lemmas.C13
 open GlueVerif.C13Undo
@@ -214,7 +215,7 @@ theorem wf_setup (n c : Nat) (ops : List Setup) : WF (setup n c ops) := by
   | nil => intro b h; exact h
   | cons op rest ih => intro b h; exact ih _ (wf_setupStep b op h)
 
-/-! ## 3. every clean command is undone exactly -/
+/-! ## 3. the building blocks of exact undo -/
 
 theorem undo_addData (d : Nat) (b : Body) (h : WF b) (hc : d ∉ b.datasets) :
     removeData d (appendData d b) = b := by
@@ -359,21 +360,7 @@ theorem restore_combineData (s : Sel) (m : Mode) (b : Body) (h : WF b) :
     rw [hF]
     exact restore_of_modified b F h
 
-/-- **Every clean command is undone exactly** (the repaired `ApplySubsetState` / `ApplyROI` always;
-`AddData` of an absent dataset; `RemoveData` of the last dataset). -/
-theorem undo_cmdDo (sp : CmdSpec) (b : Body) (h : WF b) (hc : clean sp b = true) :
-    cmdUndo true ⟨sp, (cmdDo sp b).2⟩ (cmdDo sp b).1 = b := by
-  cases sp with
-  | addData d =>
-    have hc' : d ∉ b.datasets := by simpa [clean] using hc
-    exact undo_addData d b h hc'
-  | removeData d =>
-    have hc' : b.datasets.getLast? = some d := by simpa [clean] using hc
-    exact undo_removeData d b h hc'
-  | apply k ov => exact restore_combineData _ _ b h
-  | applyRoi k => exact restore_combineData _ _ b h
-
-/-! ## 4. `AddData` / `RemoveData` as the property demands them are undone exactly, always -/
+/-! ## 4. every command of the repaired code is undone exactly -/
 
 theorem insertIdx_erase (l : List Nat) (d : Nat) (h : d ∈ l) :
     (l.erase d).insertIdx (l.idxOf d) d = l := by
@@ -389,7 +376,15 @@ theorem insertIdx_erase (l : List Nat) (d : Nat) (h : d ∈ l) :
       have hb : (a == d) = false := by simpa using he
       simp [List.idxOf_cons, hb, ih hd]
 
-theorem undo_removeData_ideal (d : Nat) (b : Body) (h : WF b) (hd : d ∈ b.datasets) :
+/-- the recorded position is a position of the collection without the dataset (`list.insert`
+does not have to clamp it). -/
+theorem idxOf_le_length_erase (l : List Nat) (d : Nat) (h : d ∈ l) :
+    l.idxOf d ≤ (l.erase d).length := by
+  have h1 : l.idxOf d < l.length := List.idxOf_lt_length_of_mem h
+  have h2 : (l.erase d).length = l.length - 1 := List.length_erase_of_mem h
+  omega
+
+theorem undo_removeData_insert (d : Nat) (b : Body) (h : WF b) (hd : d ∈ b.datasets) :
     insertData (b.datasets.idxOf d) d (removeData d b) = b := by
   have hnot : d ∉ b.datasets.erase d := fun hin => ((h.nodupD.mem_erase_iff).mp hin).1 rfl
   unfold removeData
@@ -397,32 +392,50 @@ theorem undo_removeData_ideal (d : Nat) (b : Body) (h : WF b) (hd : d ∈ b.data
   unfold insertData
   simp only [hnot, if_false]
   apply Body.ext <;> try rfl
-  · exact insertIdx_erase _ _ hd
+  · show (b.datasets.erase d).insertIdx (min (b.datasets.idxOf d) (b.datasets.erase d).length) d = _
+    rw [Nat.min_eq_left (idxOf_le_length_erase _ _ hd)]
+    exact insertIdx_erase _ _ hd
   · show upd (upd b.dsubs d _) d (upd b.dsubs d _ d ++ liveIds b) = b.dsubs
     rw [upd_same, upd_upd, h.inSubs _ hd, foldl_erase_self, List.nil_append]
     exact upd_self _ _ _ (h.inSubs _ hd)
 
-theorem wf_ideal_cmdDo (sp : CmdSpec) (b : Body) (h : WF b) : WF (Ideal.cmdDo sp b).1 := by
+/-- **Every command is undone exactly**, without any condition on the command or the session
+beyond well-formedness: `AddData` of an absent or a present dataset, `RemoveData` of a dataset at
+any position or of an absent one, the selection commands in every mode. -/
+theorem undo_cmdDo (sp : CmdSpec) (b : Body) (h : WF b) :
+    cmdUndo true ⟨sp, (cmdDo sp b).2⟩ (cmdDo sp b).1 = b := by
+  cases sp with
+  | addData d =>
+    by_cases hd : d ∈ b.datasets
+    · simp [cmdDo, cmdUndo, hd, appendData]
+    · have := undo_addData d b h hd
+      simpa [cmdDo, cmdUndo, hd] using this
+  | removeData d =>
+    by_cases hd : d ∈ b.datasets
+    · have := undo_removeData_insert d b h hd
+      simpa [cmdDo, cmdUndo, hd] using this
+    · simp [cmdDo, cmdUndo, hd, removeData]
+  | apply k ov => exact restore_combineData _ _ b h
+  | applyRoi k => exact restore_combineData _ _ b h
+
+/-! ## 5. the code before `fix: F4b`: only clean `AddData` / `RemoveData` were undone exactly -/
+
+theorem wf_pre_cmdDo (sp : CmdSpec) (b : Body) (h : WF b) : WF (PreF4b.cmdDo sp b).1 := by
   cases sp with
   | addData d => exact wf_appendData d b h
   | removeData d => exact wf_removeData d b h
   | apply k ov => exact wf_combineData _ _ b h
   | applyRoi k => exact wf_combineData _ _ b h
 
-/-- **Every command of the ideal semantics is undone exactly**, without any condition. -/
-theorem ideal_undo_cmdDo (sp : CmdSpec) (b : Body) (h : WF b) :
-    Ideal.cmdUndo ⟨sp, (Ideal.cmdDo sp b).2⟩ (Ideal.cmdDo sp b).1 = b := by
+theorem pre_undo_cmdDo (sp : CmdSpec) (b : Body) (h : WF b) (hc : clean sp b = true) :
+    PreF4b.cmdUndo true ⟨sp, (PreF4b.cmdDo sp b).2⟩ (PreF4b.cmdDo sp b).1 = b := by
   cases sp with
   | addData d =>
-    by_cases hd : d ∈ b.datasets
-    · simp [Ideal.cmdDo, Ideal.cmdUndo, hd, appendData]
-    · have := undo_addData d b h hd
-      simpa [Ideal.cmdDo, Ideal.cmdUndo, hd] using this
+    have hc' : d ∉ b.datasets := by simpa [clean] using hc
+    exact undo_addData d b h hc'
   | removeData d =>
-    by_cases hd : d ∈ b.datasets
-    · have := undo_removeData_ideal d b h hd
-      simpa [Ideal.cmdDo, Ideal.cmdUndo, hd] using this
-    · simp [Ideal.cmdDo, Ideal.cmdUndo, hd, removeData]
+    have hc' : b.datasets.getLast? = some d := by simpa [clean] using hc
+    exact undo_removeData d b h hc'
   | apply k ov => exact restore_combineData _ _ b h
   | applyRoi k => exact restore_combineData _ _ b h
 
